@@ -317,6 +317,10 @@ def judge(desc, k, res, ctx, rp):
             later_flush = [x for x in issued if x['j'] > j and x['op']['k'] == 'write' and x['op']['m'] == mid and
                            x['op']['flush'] and x['accepted']]
             superseded = any(first_tx is None or first_tx > x['stamp'] for x in later_flush)
+            if superseded:
+                # dropped from the queue before it was started: it owes no notification, and a completion for the same
+                # address belongs to a later write (an unexpected one is reported below as a completion for no request)
+                continue
             if not mine:
                 if not superseded:
                     V('mem:write-request-never-completed', {'op': {k_: v for k_, v in op.items() if k_ != 'data'},
